@@ -52,6 +52,10 @@ func (a *auditor) pricesOK(p proto4.HostPrices) bool {
 // audit processes all proxy events since the last call and returns the
 // persisting calls among them (successful or refused by the Contractor).
 func (a *auditor) audit() []rhplab.Event {
+	// mutual exclusion on the contract lock: a grant while another handler holds it
+	for _, lv := range a.lab.Log.TakeLockViolations() {
+		a.report("contract-lock-granted-while-held", "the Contractor granted a contract lock although another in-flight RPC still held it", nil, map[string]any{"violation": lv})
+	}
 	evs := a.lab.Log.Since(a.seq)
 	var commits []rhplab.Event
 	// balances the Contractor reported to the handler, per stream (replenish)
